@@ -40,12 +40,13 @@ Definition dflt : agent := {| idx := 0; stp := []; fit := []; taken := 0 |}.
 Record hp := { ls : nat; bs : nat }.                        (* agent.learn_step, agent.batch_size *)
 
 (* replay memory, as far as the loops look at it: transitions ever stored, add() calls on the n-step deque *)
-Record mem := { added : nat; calls : nat }.
+Record mem := { added : nat; calls : nat }.   (* calls: add() calls on the n-step window since it was last emptied *)
 Definition mem_len (c : cfg) (m : mem) : nat := Nat.min (mem_cap c) (added m).
 Definition is_ma (c : cfg) : bool := match lp c with MAOff | MAOn => true | _ => false end.
 
 (* one add of a (vectorised) transition. With an n-step buffer in front the memory receives the fused
-   transition only once the deque holds n entries (the deque is never cleared between agents). *)
+   transition only once the deque holds n entries ([calls] counts the adds since the window was last emptied,
+   see [turn_start]). *)
 Definition mem_add (c : cfg) (k : nat) (m : mem) : mem :=
   let calls' := S (calls m) in
   if (nstep c =? 0) || (nstep c <=? calls')
@@ -107,9 +108,14 @@ Fixpoint rollout_bandit (c : cfg) (h : hp) (n : nat) (m : mem) (r : rres) : mem 
 
 Definition r0 : rres := {| r_env := 0; r_cnt := 0; r_learn := 0 |}.
 
+(* start of an individual's turn: env.reset() is followed by n_step_memory.reset_n_step_buffer() (fix f859dc3), so the
+   n-step window is empty at the start of EVERY turn (every individual, every generation) and has to refill: nothing is
+   stored during the first n-1 iterations of a turn. What the memories already hold is kept. *)
+Definition turn_start (m : mem) : mem := {| added := added m; calls := 0 |}.
+
 Definition rollout (c : cfg) (h : hp) (m : mem) : mem * rres :=
   match lp c with
-  | Off | MAOff => rollout_off c h 0 (evo_steps c / num_envs c) m r0
+  | Off | MAOff => rollout_off c h 0 (evo_steps c / num_envs c) (turn_start m) r0
   | On | MAOn => (m, rollout_on c h r0)
   | Offline => (m, rollout_offline c r0)
   | Bandit => rollout_bandit c h (episode_steps c) m r0
